@@ -91,6 +91,8 @@ def check(ix, rep):
             continue
         rep.analysed(kf)
         SS.check_compose(ix, rep, kf, which)
+    from sa.rules import memo
+    memo.check_offline_memo_renewed(ix, rep, mon)
     # 4. bound conversion and side conditions
     units.check_transformer(ix, rep, 'rtamt.semantics.dense_time_interpreter', 'DenseTimeInterpreter', 'dense')
     pure.pure_handlers(ix, rep, mon)
